@@ -5,6 +5,7 @@ mod verif_kani {
     //! (at most 3 distinct arguments are ever queried per harness).
     use super::*;
     use std::net::{Ipv4Addr, Ipv6Addr, SocketAddr, SocketAddrV4, SocketAddrV6};
+    use std::net::IpAddr;
 
     type Key = ([u8; 4], bool, [u8; 16]);
     static mut MEMO_LEN: usize = 0;
